@@ -660,6 +660,15 @@ func (c *client) loopWrite() {
 		switch c.filter.Do(req) {
 		case Continue:
 		case Stop:
+			// The filters have answered the request. Requests encoded
+			// before it may still wait in the buffer for more to come,
+			// nobody else flushes them when this was the last one.
+			if len(c.pendingReqs) == 0 {
+				if err = c.enc.Flush(); err != nil {
+					c.logger.Warnf("loop write exit: %v", err)
+					return
+				}
+			}
 			continue
 		}
 
